@@ -176,8 +176,9 @@ def validate(data, doc, images, opts):
         seen_img_objs = {}
         for i, (page, (lines, imgs)) in enumerate(zip(r.pages, exp)):
             assert [float(v) for v in page.mediabox] == [0, 0, 612, 792], "mediabox"
-            text = page.extract_text()
-            assert text == "\n".join(lines), "page %d text %r expected %r" % (i + 1, text, "\n".join(lines))
+            text = page.extract_text()        # pypdf adds line breaks of its own around images: compare the lines
+            got_lines = [ln for ln in text.split("\n") if ln.strip()]
+            assert got_lines == lines, "page %d text %r expected lines %r" % (i + 1, text, lines)
             contents = page.get_contents()
             if not lines and not imgs:
                 mode = (opts or {}).get("empty_page", "nostream")
@@ -265,8 +266,8 @@ def extractor_check(data, doc, images, tr):
         want = [tk for ln in lines for tk in find_tokens(ln)]
         if got != want:
             probs.append("page %d tokens %r expected %r" % (i + 1, got, want))
-        if u.get_text() != "\n".join(lines):
-            probs.append("page %d text %r expected %r" % (i + 1, u.get_text(), "\n".join(lines)))
+        if [ln for ln in u.get_text().split("\n") if ln.strip()] != lines:
+            probs.append("page %d text %r expected lines %r" % (i + 1, u.get_text(), lines))
         ui = u.get_images()
         if len(ui) != len(imgs):
             probs.append("page %d: %d images expected %d" % (i + 1, len(ui), len(imgs)))
@@ -349,6 +350,7 @@ def main():
         "p-empty": D([["p", []]]),
         "p-2tokens": D([P(t("B"), t("B"))]),
         "p+p": D([P(t("B")), P(t("B"))]),
+        "p2+p2": D([P(t("B"), t("B")), P(t("B"), t("B"))]),
         "p+empty+p": D([P(t("B")), ["p", []], P(t("B"))]),
         "h1": D([["h", 1, [["t", t("H")]]]]),
         "h2+p": D([["h", 2, [["t", t("H")]]], P(t("B"))]),
@@ -366,6 +368,8 @@ def main():
         "img-rgb": D([["img", "c"]]),
         "img-scaled": D([["img", "big"]]),
         "p+img+p": D([P(t("B")), ["img", "g"], P(t("B"))]),
+        "p+img": D([P(t("B")), ["img", "g"]]),
+        "img+h+img": D([["img", "c"], ["h", 2, [["t", t("H")]]], ["img", "g"]]),
         "img-twice": D([["img", "g"], ["img", "g"]]),
         "img-2pages": D([["img", "g"], P(t("B"))], [["img", "g"], ["img", "c"]]),
     }
